@@ -416,6 +416,7 @@ def u7(prog, ctx, files, pid):
                 ctx.fail("U7", hits[0][3], hits[0][1], "%s (module %s)" % (name, rel), "module-level %s is modified at run time: it is shared by "
                          "everything the process handles (chromosome tasks, experiments), and what is stored depends on more than the key it "
                          "is stored under" % name)
+    _c10.memoised_functions(prog, ctx, "U7", files=files)
     ctx.ok("U7", "anchor modules", "%d process-wide mutable locations modified at run time, all accounted for" % n, nontrivial=False)
 
 
